@@ -265,14 +265,26 @@ def enumerate_cases(tier, seed):
     for pk in (PKS if thorough else ("mem", "both")):
         for prior in (PRIORS if thorough else ("fresh", "both")):
             cases.append({"part": "calin", "pk": pk, "prior": prior})
-    return cases
+    return cases + _legacy_of(cases)
+
+
+LEGACY_SPACES = ("inc3", "incxa", "seqincT", "custom", "seqen2")
+
+
+def _legacy_of(cases):
+    """the same observations through the legacy entry point pyxel.observation_mode (its own implementation of the three
+    modes): every sequentially executed case of the scalar spaces"""
+    return [dict(c, exec="legacy") for c in cases
+            if c["part"] == "obs" and c["exec"] == "seq" and c["space"] in LEGACY_SPACES and c["pk"] in ("mem", "both")]
 
 
 def expected_size(tier, seed):
     nvar = 15 + 3 * 4
+    # legacy cases: (pk in mem/both) x priors x readouts x variants of the five scalar spaces
+    nleg = 2 * (4 if tier == "thorough" else 2) * (3 if tier == "thorough" else 2) * sum(len(variants(sp)) for sp in LEGACY_SPACES)
     if tier == "thorough":
-        return 4 * 4 * 3 * 2 * (nvar + 4) + 2 * 4 * 3 * 2 * 4 + 4 * 4 * 1 * 2 * 2 + 4 * 4 * 6 + 16 + 16 + 64 + 2 + 2
-    return 2 * 2 * 2 * 2 * (nvar + 4) + 2 * 2 * 2 * 2 * 4 + 2 * 2 * 1 * 2 * 2 + 4 * 2 * 6 + 1 + 4 + 32 + 2 + 2
+        return 4 * 4 * 3 * 2 * (nvar + 4) + 2 * 4 * 3 * 2 * 4 + 4 * 4 * 1 * 2 * 2 + 4 * 4 * 6 + 16 + 16 + 64 + 2 + 2 + nleg
+    return 2 * 2 * 2 * 2 * (nvar + 4) + 2 * 2 * 2 * 2 * 4 + 2 * 2 * 1 * 2 * 2 + 4 * 2 * 6 + 1 + 4 + 32 + 2 + 2 + nleg
 
 
 # ---------------------------------------------------------------- the check
@@ -314,6 +326,15 @@ def run_case(case):
     if case["part"] == "calin":
         return run_calin(case)
     return run_arch(case)
+
+
+def _legacy_dataset(res):
+    """the Dataset of a legacy ObservationResult on the axes of the current result ('time' instead of 'readout_time'); the
+    sequential mode returns one Dataset per parameter: only the caller's objects are judged there (None)"""
+    ds = res.dataset
+    if isinstance(ds, dict):
+        return None
+    return ds.rename({"readout_time": "time"}).load()
 
 
 def run_obs(case):
@@ -419,17 +440,20 @@ def run_obs(case):
         with dask.config.set(scheduler="synchronous"):
             try:
                 obs = new_observation()
-                result = pyxel.run_mode(obs, det, pipe, with_inherited_coords=True)
-                ds = bucket_dataset(result)
-                if ex == "seq":
-                    ds = ds.load()
+                if ex == "legacy":
+                    ds = _legacy_dataset(pyxel.observation_mode(obs, det, pipe))
+                else:
+                    result = pyxel.run_mode(obs, det, pipe, with_inherited_coords=True)
+                    ds = bucket_dataset(result)
+                    if ex == "seq":
+                        ds = ds.load()
             except Exception as e:  # noqa: BLE001
                 raised = e
             if raised is not None and not (poison is not None and "BOOM-C06" in str(raised)):
                 bad("raised", f"the observation raised {type(raised).__name__}: {str(raised)[:300]}")
                 return {"viol": viol, "sig": cfgx.sig([case, "raised"]), "nontrivial": False}
             ok = check_caller("after the call" + (" that raised" if raised is not None else ""))
-            if raised is None:
+            if raised is None and ds is not None:
                 try:
                     compare_all(ds, skip_poisoned=True, tag="first call")
                 except Exception as e:  # noqa: BLE001
@@ -442,11 +466,15 @@ def run_obs(case):
                 # the same caller's objects, the failure gone: every run must still equal its standalone exposure
                 probes.FAULT.clear()
                 try:
-                    result2 = pyxel.run_mode(new_observation(), det, pipe, with_inherited_coords=True)
-                    ds2 = bucket_dataset(result2)
-                    if ex == "seq":
-                        ds2 = ds2.load()
-                    compare_all(ds2, skip_poisoned=False, tag="repeated call after a failed one")
+                    if ex == "legacy":
+                        ds2 = _legacy_dataset(pyxel.observation_mode(new_observation(), det, pipe))
+                    else:
+                        result2 = pyxel.run_mode(new_observation(), det, pipe, with_inherited_coords=True)
+                        ds2 = bucket_dataset(result2)
+                        if ex == "seq":
+                            ds2 = ds2.load()
+                    if ds2 is not None:
+                        compare_all(ds2, skip_poisoned=False, tag="repeated call after a failed one")
                 except Exception as e:  # noqa: BLE001
                     bad("raised", f"the repeated observation raised {type(e).__name__}: {str(e)[:300]}", stage="repeat")
                 check_caller("after the repeated call")
